@@ -84,6 +84,10 @@ def interpret(s):
             elif nm == 'fmod' and len(a.args) == 2:
                 q_ = a.args[0] / a.args[1]
                 rep[a] = a.args[0] - a.args[1] * sp.sign(q_) * sp.floor(sp.Abs(q_))
+            elif nm in ('remainder', 'remainderf', 'std::remainder') and len(a.args) == 2:
+                # IEEE remainder: x - m * (x / m rounded to nearest)
+                q_ = a.args[0] / a.args[1]
+                rep[a] = a.args[0] - a.args[1] * sp.floor(q_ + sp.Rational(1, 2))
             elif nm == 'mod2pi' and len(a.args) == 1:
                 rep[a] = a.args[0] - 2 * sp.pi * sp.floor(a.args[0] / (2 * sp.pi))
             elif not any(isinstance(x_, sp.core.function.AppliedUndef) for arg_ in a.args for x_ in sp.preorder_traversal(arg_)):
